@@ -119,6 +119,17 @@ func retConstBlocks(fn *ssa.Function, v int64) []*ssa.BasicBlock {
 		if r, ok := b.Instrs[len(b.Instrs)-1].(*ssa.Return); ok && len(r.Results) == 1 {
 			if k, ok := core.ConstInt(r.Results[0]); ok && k == v {
 				out = append(out, b)
+				continue
+			}
+			// functions with a defer spill the result: *res = K; rundefers; return *res
+			if ld, ok := r.Results[0].(*ssa.UnOp); ok && ld.Op == token.MUL {
+				for _, in := range b.Instrs {
+					if st, ok := in.(*ssa.Store); ok && st.Addr == ld.X {
+						if k, ok := core.ConstInt(st.Val); ok && k == v {
+							out = append(out, b)
+						}
+					}
+				}
 			}
 		}
 	}
